@@ -430,11 +430,24 @@ def check_C12(tier, seed):
         mv, _, left = mo.rpartition("|L:")
         if mv != model_view(obs[i], faults) or left != "0":
             dis.append((len(cases[i]), cases[i], impl[i], mcases[i], mo))
+    # the shared buffer under real back-pressure: a non-blocking Unix socket whose listener falls behind (WouldBlock) and
+    # reads again - every line acknowledged with Ok, whoever emitted it, leaves exactly once (sock family XW, buffered)
+    from . import sock as sock_driver
+    xw = sock_driver.xw_buffered_cases()
+    try:
+        xwo = common.run_harness("sock", xw, shards=1)
+    except common.CheckFailure as e:
+        xwo = ["HARNESS-PANIC " + str(e)[:200]] * len(xw)
+    for c, o in zip(xw, xwo):
+        for pid, msg in sock_driver.judge(c, o):
+            if pid == "C12":
+                failures.append((len(c), c, o, msg))
+    rep.cov["backpressure_cases"] = len(xw)
     if failures:
         failures.sort()
         _, c, raw, msg = failures[0]
         rep.violation_input("%s (%d failing cases; smallest shown)" % (msg[:300], len(failures)),
-                            {"bin": "conc", "case": c, "implementation": raw[:4000], "clause": msg,
+                            {"bin": "sock" if c.startswith("XW") else "conc", "case": c, "implementation": raw[:4000], "clause": msg,
                              "how": "build/target/release/harness conc <file with the case line> (schedules are forced where the "
                                     "plan says t+u; free runs may need repeating)"})
     if broken and not failures:
@@ -514,6 +527,9 @@ def replay(prop, data):
     if not c:
         print("nothing to replay")
         return 2
+    if r.get("bin") == "sock":
+        from . import sock as sock_driver
+        return common.replay_case(prop, data, "sock", lambda p, case, obs: [m for q, m in sock_driver.judge(case, obs) if q == p])
     out = common.run_harness("conc", [c], shards=1)[0]
     print(out)
     o = parse_obs(out)
